@@ -16,6 +16,7 @@ import XmlDiffModel.Model.OldFormat
 import XmlDiffModel.Model.Api
 import XmlDiffModel.Model.Blank
 import XmlDiffModel.Model.Placeholder
+import XmlDiffModel.Model.XmlFormat
 import Std.Data.HashMap
 open XmlDiffModel
 
@@ -425,6 +426,39 @@ def doPh (args : List String) : String :=
         " # ".intercalate undone
   | _ => "bad-op"
 
+def decSeg (s : String) : Option Seg :=
+  match s.splitOn ":" with
+  | [o, t] =>
+    let op := if o == "d" then some Op.del else if o == "i" then some Op.ins else if o == "e" then some Op.eq else none
+    match op, decStr t with
+    | some op, some (some txt) => some { op := op, text := txt }
+    | _, _ => none
+  | _ => none
+
+def decSegLists (s : String) : Option (List (List Seg)) :=
+  -- every list is preceded by `|`
+  ((s.splitOn "|").drop 1).mapM fun l => ((l.splitOn ",").filter (· ≠ "")).mapM decSeg
+
+def showFErr : FErr → String
+  | .notFound => "notFound" | .multiple => "multiple" | .keyError => "keyError" | .noSegs => "noSegs"
+  | .popEmpty => "popEmpty" | .assertFail => "assertFail" | .undo e => "undo:" ++ showUErr e | .other => "other"
+
+/-- xmlfmt <texttags> <fmttags> <useReplace> <left> <right> <script> <segs> -/
+def doXmlFmt (args : List String) : String :=
+  match args with
+  | [tt, ft, ur, ls, rs, ss, sg] =>
+    match decTree ls, decTree rs, decScript ss, decSegLists sg with
+    | some L, some R, some sc, some segs =>
+      let st0 := phInit (decStrList tt) (decStrList ft)
+      let (L1, st1) := doTree (removeComments L) st0
+      let (_, st2) := doTree (removeComments R) st1
+      let fs : FState := { tree := L1, next := 5000, ph := st2, segs := segs, useReplace := ur == "1", wsText := false }
+      match formatTree qnPlain fs sc with
+      | .ok t => "ok " ++ encTree t
+      | .error (k, e) => s!"err {k} {showFErr e}"
+    | _, _, _, _ => "bad-op"
+  | _ => "bad-op"
+
 def doOrders (args : List String) : String :=
   match args with
   | [ts] => match decTree ts with
@@ -449,6 +483,7 @@ def handle (line : String) : String :=
   | "old" :: args => doOld args
   | "plan" :: args => doPlan args
   | "ph" :: args => doPh args
+  | "xmlfmt" :: args => doXmlFmt args
   | "blank" :: args => doBlank args
   | "parse" :: args => doParse args
   | "json" :: args => doJson args
